@@ -1,6 +1,7 @@
 import SoundeventModel.Ops.Common
 import SoundeventModel.Aoef.Closure
 import SoundeventModel.Aoef.Adapter
+import SoundeventModel.Aoef.OpSave
 namespace SE.Ops.C02
 open Lean SE SE.Aoef SE.Paths
 
@@ -48,6 +49,13 @@ def handle (op : String) (a : Json) : Except String Json := do
     -- keys of the distinct objects reachable from a collection, per kind
     let c : Collection ← fromJson? (← fld a "collection")
     return kindTable (fun k => (reachKeys c.trav k).eraseDups)
+  | "op_save" =>
+    -- the operational model of the save path (adapters as mutable tables, conversions in the code's call order)
+    let c : Collection ← fromJson? (← fld a "collection")
+    let dir := match fldOpt a "audio_dir" with
+      | some (Json.str s) => some (parse s)
+      | _ => none
+    return exceptJ toJson (opSave c dir)
   | "reach_history" =>
     let steps ← fldArr a "steps"
     let outs ← steps.mapM fun st => do
